@@ -340,7 +340,7 @@ pub fn parse_lct_header(data: &[u8]) -> Result<LCTHeader> {
         |&v| Ok((v as usize) << 2),
     )?;
 
-    if len > data.len() {
+    if len > data.len() || data.len() < 4 {
         return Err(FluteError::new(format!(
             "lct header size is {} whereas pkt size is {}",
             len,
